@@ -5,15 +5,19 @@
    eb0f53d, 8caadf2 ([cf_fix cf = all_fixed]); the behaviour of
    the pinned tree is refuted by the witnesses of Core/Lifecycle_refuted.v (last section).
 
-   Scope of the general theorems (suffix _partial): histories whose requests are send / query /
-   search / gethostbyaddr / getnameinfo and their legacy variants, ares_cancel from the
-   application and from callbacks, ares_destroy; all scripts, all tapes (server behaviour,
-   timeouts, socket results, server choice), all fuel.  MISSING: ares_getaddrinfo /
-   ares_gethostbyname (struct host_query shared by the A and AAAA queries) -- modelled and tied
-   by the correspondence run, not covered by the proofs; completeness when ares_cancel returns
-   (complete_at_cancel) is checked by the monitor only; sufficiency of the fuel is not proved
-   (the theorems speak about every fuel; the correspondence run reports fuel exhaustion as a
-   difference). *)
+   Scope of the general theorems: histories built from all seven entry points (send / query /
+   search / getaddrinfo / gethostbyname / gethostbyaddr / getnameinfo and the legacy variants of
+   the first three), ares_cancel from the application and from callbacks, ares_process_fds,
+   ares_destroy; all scripts (calls made from inside callbacks, nested), all tapes (server
+   behaviour, cache results, timeouts, socket results, server choice), all fuel.
+   For getaddrinfo / gethostbyname the proofs cover struct host_query shared by the A and AAAA
+   queries: the "remaining" counter against the queries that point at it, a query completing
+   inside the call that submits it (cache hit, send failure) while the second one is still to be
+   submitted, next_lookup / end_hquery, "*qid = id" through &hquery->qid_a.
+   MISSING: completeness when ares_cancel returns (complete_at_cancel) is checked by the monitor
+   only; sufficiency of the fuel is not proved (the theorems speak about every fuel; the
+   correspondence run reports fuel exhaustion as a difference); ares_set_servers*() /
+   ares_reinit() are not part of the model (known finding C01 in findings/C01.json). *)
 From Coq Require Import List ZArith.
 Import ListNotations.
 From CAres.Base Require Import Outcome.
@@ -26,49 +30,56 @@ Theorem C01_monitor_decides_trace_ok : forall tr, callback_monitor tr = VOk <-> 
 Proof. exact monitor_ok_iff. Qed.
 Print Assumptions C01_monitor_decides_trace_ok.
 
-(* FULL STATEMENT: forall cf fuel h final, cf_fix cf = all_fixed -> forall k, run cf fuel h final <> UB k *)
-Theorem C01_no_ub_partial :
-  forall cf fuel h final, cf_fix cf = all_fixed -> Forall (fun it => nohost_input (fst it)) h ->
+(* no use after release, no double release, for every history, tape and fuel *)
+Theorem C01_no_ub :
+  forall cf fuel h final, cf_fix cf = all_fixed ->
   forall k, run cf fuel h final <> UB k.
 Proof. exact run_no_ub. Qed.
-Print Assumptions C01_no_ub_partial.
+Print Assumptions C01_no_ub.
 
-(* FULL STATEMENT: the same without the nohost hypothesis.  Tokens are chosen by the application:
-   [NoDup (hist_toks h)] says that it uses a fresh token for every request (also in scripts). *)
-Theorem C01_at_most_once_partial :
-  forall cf fuel h final tr, cf_fix cf = all_fixed -> Forall (fun it => nohost_input (fst it)) h ->
+(* Tokens are chosen by the application: [NoDup (hist_toks h)] says that it uses a fresh token
+   for every request (also in scripts). *)
+Theorem C01_at_most_once :
+  forall cf fuel h final tr, cf_fix cf = all_fixed ->
   NoDup (hist_toks h) -> run cf fuel h final = Ok tr -> at_most_once tr.
-Proof. intros cf fuel h final tr H1 H2 H3 H4. exact (proj1 (run_trace_ok cf fuel h final tr H1 H2 H3 H4)). Qed.
-Print Assumptions C01_at_most_once_partial.
+Proof. exact run_at_most_once. Qed.
+Print Assumptions C01_at_most_once.
 
-Theorem C01_none_after_destroy_partial :
-  forall cf fuel h final tr, cf_fix cf = all_fixed -> Forall (fun it => nohost_input (fst it)) h ->
+Theorem C01_none_after_destroy :
+  forall cf fuel h final tr, cf_fix cf = all_fixed ->
   NoDup (hist_toks h) -> run cf fuel h final = Ok tr -> none_after_destroy tr.
-Proof. intros cf fuel h final tr H1 H2 H3 H4. exact (proj1 (proj2 (run_trace_ok cf fuel h final tr H1 H2 H3 H4))). Qed.
-Print Assumptions C01_none_after_destroy_partial.
+Proof. exact run_none_after_destroy. Qed.
+Print Assumptions C01_none_after_destroy.
 
 (* when ares_destroy has returned every request has had exactly one callback ... *)
-Theorem C01_exactly_once_on_destroy_partial :
-  forall cf fuel h final tr, cf_fix cf = all_fixed -> Forall (fun it => nohost_input (fst it)) h ->
+Theorem C01_exactly_once_on_destroy :
+  forall cf fuel h final tr, cf_fix cf = all_fixed ->
   NoDup (hist_toks h) -> run cf fuel h final = Ok tr -> complete_at_destroy tr.
-Proof. intros cf fuel h final tr H1 H2 H3 H4. exact (proj2 (proj2 (run_trace_ok cf fuel h final tr H1 H2 H3 H4))). Qed.
-Print Assumptions C01_exactly_once_on_destroy_partial.
+Proof. exact run_complete_at_destroy. Qed.
+Print Assumptions C01_exactly_once_on_destroy.
 
 (* ... and so it is at every point of a history at which no query is outstanding *)
-Theorem C01_exactly_once_on_quiescence_partial :
-  forall cf fuel h s, cf_fix cf = all_fixed -> Forall (fun it => nohost_input (fst it)) h -> NoDup (hist_toks h) ->
+Theorem C01_exactly_once_on_quiescence :
+  forall cf fuel h s, cf_fix cf = all_fixed -> NoDup (hist_toks h) ->
   run_from cf fuel h init_state = Ok (false, s) -> linked s = [] ->
   (forall t, count_cb (st_trace s) t = count_req (st_trace s) t) /\ at_most_once (rev (st_trace s)).
 Proof. exact run_from_quiescent. Qed.
-Print Assumptions C01_exactly_once_on_quiescence_partial.
+Print Assumptions C01_exactly_once_on_quiescence.
 
-(* the hypotheses are inhabited by non-trivial histories (reentrant cancel, failing follow-up
-   send on the connection under read), on which the model runs to completion *)
+(* the hypotheses are inhabited by non-trivial histories (reentrant cancel with a failing
+   follow-up send on the connection under read; a getaddrinfo whose first query is released by a
+   callback while it is being sent), on which the model runs to completion *)
 Example C01_hypotheses_inhabited :
-  Forall (fun it => nohost_input (fst it)) h_sibling_cancels /\ NoDup (hist_toks h_sibling_cancels)
+  NoDup (hist_toks h_sibling_cancels)
   /\ run (mkcfg all_fixed 1) 60 h_sibling_cancels []
-     = Ok [EvReq 1; EvReq 2; EvCb 1 11%Z; EvCb 2 24%Z; EvDestroyBegin; EvDestroyEnd; EvEnd].
-Proof. split; [repeat constructor|]. split; [vm_compute; repeat constructor; simpl; intuition discriminate|]. vm_compute. reflexivity. Qed.
+     = Ok [EvReq 1; EvReq 2; EvCb 1 11%Z; EvCb 2 24%Z; EvDestroyBegin; EvDestroyEnd; EvEnd]
+  /\ NoDup (hist_toks h_qid_after_free)
+  /\ run (mkcfg all_fixed 4) 60 h_qid_after_free []
+     = Ok [EvReq 9; EvReq 1; EvReq 5; EvCb 1 0%Z; EvCb 9 24%Z; EvCb 5 24%Z; EvDestroyBegin; EvDestroyEnd; EvEnd].
+Proof.
+  split; [vm_compute; repeat constructor; simpl; intuition discriminate|]. split; [vm_compute; reflexivity|].
+  split; [vm_compute; repeat constructor; simpl; intuition discriminate|]. vm_compute. reflexivity.
+Qed.
 
 (* ---- the pinned tree does not satisfy the property: one witness per defect ---- *)
 Theorem C01_pinned_cancel_in_callback_refuted :
